@@ -77,8 +77,19 @@ var vocab = []string{"alpha", "bravo", "cache", "delta", "echo", "flush", "gamma
 func c10Profile(plan chainPlan) shape.Profile {
 	p := shape.FullProfile()
 	lt := append([]string{}, shape.AllLeafTypes...)
-	lt = append(lt, "[]Job", "[]Job", "[]Job", "TagSet", "map[string]struct{}", "map[string]struct{}", "time.Duration", "time.Duration",
-		"map[string]time.Duration", "[2]time.Duration", "*time.Duration", "time.Time", "net.IP", "Stamp", "Color")
+	for _, w := range []struct {
+		ty string
+		n  int
+	}{
+		{"[]Job", 4}, {"TagSet", 2}, {"map[string]struct{}", 5}, {"time.Duration", 5}, {"[]time.Duration", 2},
+		{"map[string]time.Duration", 2}, {"[2]time.Duration", 1}, {"*time.Duration", 1},
+		{"time.Time", 3}, {"net.IP", 3}, {"Stamp", 2}, {"Color", 2},
+		{"int", 2}, {"string", 2}, {"bool", 2}, {"[]string", 2}, {"float64", 1}, {"map[string]string", 1},
+	} {
+		for i := 0; i < w.n; i++ {
+			lt = append(lt, w.ty)
+		}
+	}
 	if !known(keyTypesubAddr) {
 		lt = append(lt, "*[]time.Duration", "**time.Duration", "*map[string]time.Duration")
 	}
